@@ -32,6 +32,11 @@ TRUSTED_BASE += [
     'C17_*_json theorems: encoding/json on the envelope is the Gallina model coq/Value/Json.v proved in C16 (tied to the real library by the C16 check); left assumed: framing_ok (the scanner splits the objects the encoder wrote '
     'into their members) and that the interning table str_of/id_of is a bijection between string ids and byte strings with "" = 0',
 ]
+TRUSTED_BASE += [
+    'round "proofs 3": the liveness premise of C17_outbox_at_least_once ("one of the destination\'s attempts accepts") is an assumption about the environment; the source is the GoChannel-like redelivery model of Relay/Redelivery.v '
+    '(tied by the redelivery scenarios), not the Layer A transition system (for which at-most-once / acked=>relayed are proved in Relay/ConsumerProofs.v, termination of the redelivery loop is not); '
+    'forwarder configuration defaults are observed through components/forwarder/export_relay_verif.go (build tag verif)',
+]
 ASSUMPTIONS = [
     'per-message independence of handleMessage instances is structural (C02); the harness runs 1..8 messages in flight through each component, all of them inside the destination Publish call at the same time, and compares every per-message trace',
     'Requeuer counter at MaxInt64 wraps to MinInt64 (modelled as coded; theorem C17_requeuer_counter_at_maxint_refuted); a message with a nil Metadata map is never requeued (Metadata.Set panics, the Router Nacks; theorem C17_requeuer_nil_metadata_refuted); both are accepted by the acceptor as coded and reported in the design notes, not as violations',
@@ -349,6 +354,22 @@ def run_once(ctx, res, seed, size, tag):
         res.mismatches.append(dict(kind='Corr.C17.fanin_cfg_mismatch (fanin_new vs NewFanIn)', case=dict(fic[i], sources=[tab[x] for x in (fic[i]['sources'] or [])], target=tab[fic[i]['target']])))
     for i in r['R2']:
         res.mismatches.append(dict(kind='Corr.C17.requeuer_cfg_mismatch (requeuer_new vs NewRequeuer)', case=rqc[i]))
+    # ---- forwarder / publisher configuration (round "proofs 3")
+    fc = data.get('fwd_cfg') or []
+    if fc:
+        terms = ['(FWC %s %s %s %s %s %s %s %s %s %s %s %s)' % (
+            C.coq_N(c['dflt']), C.coq_N(c['topic']), C.coq_Z(c['timeout_ns']), C.coq_N(c['obs_topic']), C.coq_Z(c['obs_timeout_ns']),
+            C.coq_bool(c['valid_raw']), C.coq_bool(c['valid_after']), C.coq_bool(c['new_ok']),
+            'None' if c['sub_topic'] < 0 else '(Some %s)' % C.coq_N(c['sub_topic']),
+            C.coq_N(c['pub_topic']), C.coq_bool(c['pub_valid_raw']), C.coq_N(max(c['pub_send_topic'], 0))) for c in fc]
+        r = C.coq_eval(pid, 'cases_%s_fwdcfg' % tag, HEADER + 'Definition cases : list fwdcfg_case := %s.\n' % C.coq_list(terms), [('R_mis', 'fwdcfg_mismatches cases')])
+        res.evaluations += len(fc)
+        for c in fc:
+            res.nontrivial.add(('fwdcfg', c['topic'] == 0, c['timeout_ns']))
+            res.count('forwarder config: topic_empty=%s close_timeout_ns=%d run=%s' % (c['topic'] == 0, c['timeout_ns'], c['sub_topic'] >= 0))
+        for i in r['R_mis']:
+            res.mismatches.append(dict(kind='Corr.C17.fwdcfg_mismatch (Relay/Config.v vs forwarder Config/PublisherConfig setDefaults, Validate, NewForwarder)',
+                                       case=dict(fc[i], topic=tab[fc[i]['topic']], obs_topic=tab[fc[i]['obs_topic']])))
     return data, tab, good, fo
 
 
